@@ -183,8 +183,8 @@ package main
 //@   before call KeepAlive: assert [flag-forwarded-unchanged] arg0 == old(opts.keepalive)
 //@   before call Connections: assert [flag-forwarded-unchanged] arg0 == old(opts.connections)
 //@   before call MaxConnections: assert [flag-forwarded-unchanged] arg0 == old(opts.maxConnections)
-//@   before call HTTP2: assert [flag-forwarded-unchanged] arg0 == old(opts.http)2
-//@   before call H2C: assert [flag-forwarded-unchanged] arg0 == old(opts.h)2c
+//@   before call HTTP2: assert [flag-forwarded-unchanged] arg0 == old(opts.http2)
+//@   before call H2C: assert [flag-forwarded-unchanged] arg0 == old(opts.h2c)
 //@   before call MaxBody: assert [flag-forwarded-unchanged] arg0 == old(opts.maxBody)
 //@   before call UnixSocket: assert [flag-forwarded-unchanged] arg0 == old(opts.unixSocket)
 //@   before call ChunkedBody: assert [flag-forwarded-unchanged] arg0 == old(opts.chunked)
